@@ -13,7 +13,7 @@ CHECKS = {
    note=W),
  "C02": dict(engine="WORLD", category="fault_enumeration", design="6 C02",
    technique="stateful property-based testing with fault injection: generated schedules + systematic crash-point / write-fault enumeration (thorough) + read-fault profile (thorough); invariant monitor at every fail answer",
-   text="Every fail answer of a trampoline HTLC is checked against the node's part table and running pay commands at that instant, over generated interleavings (part resolutions between the RPCs of wait_payment, pay outcomes leaving parts pending, restarts onto pending records) and injected write faults; thorough adds every single crash point and write fault of 150 base histories and RPC read errors. Fund-loss properties need one bad ordering out of thousands, which is what schedule search is for.",
+   text="Every fail answer of a trampoline HTLC is checked against the node's part table and running pay commands at that instant, over generated interleavings (part resolutions between the RPCs of wait_payment, pay outcomes leaving parts pending, restarts onto pending records) and injected write faults; thorough adds every single crash point and write fault of 150 base histories, every RPC of 200 two-attempt histories delayed, and RPC read errors (single, pairs, bursts of 3-4). A structured generator overlaps two lifecycles of one hash with one RPC of the first withheld. Fund-loss properties need one bad ordering out of thousands, which is what schedule search is for.",
    note=W+" Known findings K1/K3 (read faults only) are listed in known_findings.json."),
  "C03": dict(engine="WORLD", category="exploration", design="6 C03",
    technique="stateful property-based testing: invariant monitor over the arguments of every pay RPC versus the HTLCs held at that instant (u128 reference arithmetic)",
@@ -29,7 +29,7 @@ CHECKS = {
    note=W),
  "C06": dict(engine="WORLD+E2E+FUZZ", category="exploration", design="6 C06",
    technique="property-based testing and fuzzing: byte-level request generators in WORLD (hang = unanswered after a fair drain in the model, panic hook), the same requests through the real binary (reply shape), libFuzzer campaign in thorough",
-   text="Arbitrary payload/metadata bytes (truncated varints at every width, oversized lengths), numeric extremes, up to 6 HTLCs per hash, write faults (quick) and read faults (thorough): after the fair drain every call has exactly one well-formed answer, no task panicked, incomplete sets are failed within one MPP timeout. The real binary decides the reply shape (JSON-RPC error replies, panics on stderr).",
+   text="Arbitrary payload/metadata bytes (truncated varints at every width, oversized lengths), numeric extremes, up to 6 HTLCs per hash, write faults (quick) and read faults (thorough): after the fair drain every call has exactly one well-formed answer, no task panicked, incomplete sets are failed within one MPP timeout. The real binary decides the reply shape (JSON-RPC error replies, panics on stderr, process exit with unanswered calls, a lost reply while later requests are answered at once); requests are also written in two pieces. Thorough adds a libFuzzer campaign over bytes -> requests + stub collaborator answers (target `request`).",
    note=W+" E2E uses real time only to bound waits (missing reply without a panic line = exit 2). Known finding K2 (todo!() on read fault) listed in known_findings.json."),
  "C07": dict(engine="WORLD", category="exploration", design="6 C07",
    technique="stateful property-based testing: per-instant batch monitor (all held HTLCs of a hash answered together, identically) and a reference rule for rejecting HTLCs",
@@ -41,7 +41,7 @@ CHECKS = {
    note=W),
  "C09": dict(engine="WORLD", category="fault_enumeration", design="6 C09",
    technique="fault enumeration + probe oracle: every crash point and single write fault of generated base histories, followed by a probe payment; fixpoint test of the stored image decides permanence",
-   text="For each base history: crash after every node-side effect (3 flavours) and every datastore write rejected / applied-but-reported-failed; after the drain a fully funded probe for the same invoice in a fresh lifetime must be resolved; a failing probe that leaves the stored image unchanged is a fixpoint, hence permanent. Random multi-crash histories in addition.",
+   text="For each base history: crash after every node-side effect (3 flavours) and every datastore write rejected / applied-but-reported-failed; after the drain a fully funded probe for the same invoice in a fresh lifetime must be resolved; a failing probe that leaves the stored image unchanged is a fixpoint, hence permanent. Base histories include two-attempt histories (first attempt fails, bookkeeping delayed). The first probe runs in the same process (no restart), further probes in fresh lifetimes. Random multi-crash histories in addition.",
    note=W+" MPP timeout 0 is excluded (with it the plugin pays nothing at all)."),
  "C10": dict(engine="WORLD", category="exploration", design="6 C10",
    technique="property-based testing against a reference classifier: cartesian-biased single-HTLC scenarios, class equality and pay-argument checks",
@@ -49,7 +49,7 @@ CHECKS = {
    note=W),
  "C11": dict(engine="WORLD", category="exploration", design="6 C11",
    technique="stateful property-based testing in virtual time: timing monitor on fail answers of incomplete sets (paused tokio clock, 5 s grid)",
-   text="Incomplete sets: answer 0x2019, no pay, t_fail in [t_fetch+T, t_fetch+T+1 s] for fresh hashes, <= t_recovery+T after a restart, immediate when the attempt is older than T+5 s. Timeouts 0-120 s, arrival patterns over ticks, restarts with downtimes on the grid.",
+   text="Incomplete sets (also after 1-3 attempts the plugin itself concluded): answer 0x2019, never left unanswered, no pay, t_fail in [t_fetch+T, t_fetch+T+1 s] for fresh hashes, <= t_recovery+T after a restart, immediate when the attempt is older than T+5 s. Timeouts 0-120 s, arrival patterns over ticks, restarts with downtimes on the grid.",
    note=W+" One known finding (lifecycle-overlap race answering 0x2002) in known_findings.json."),
  "C12": dict(engine="PURE+WORLD", category="exploration", design="6 C12",
    technique="property-based testing: proptest + fixed boundary grid against a u128 reference model, in an overflow-checking and a wrapping build; WORLD monitor for the rejection bytes",
@@ -57,7 +57,7 @@ CHECKS = {
    note="Trusted: the u128 reference in harness/src/refmodel.rs; that the `pure` workspace member really is a wrapping build (asserted at run time). One known finding (conservative false when amount*ppm exceeds u64) is pinned by an existing unit test and listed in known_findings.json. "+W),
  "C13": dict(engine="WORLD+E2E", category="exploration", design="6 C13",
    technique="property-based testing with a metamorphic relation: non-trampoline-only scenarios (continue, zero RPCs, byte-exact rewrite) and insertion of such HTLCs into base scenarios (observable trace unchanged)",
-   text="Generated non-trampoline classes incl. the only metadata shape that reaches the payload-rewrite branch; oracle: continue in the delivery instant, no RPC, empty datastore, rewritten payload = input records minus type 16; metamorphic: inserting them beside real payments changes neither RPC requests nor answers. Thorough repeats it through the real binary with an idle RPC socket.",
+   text="Generated non-trampoline classes incl. the only metadata shape that reaches the payload-rewrite branch; oracle: continue in the delivery instant, no RPC, empty datastore, rewritten payload = input records minus type 16; metamorphic: inserting them beside real payments changes neither RPC requests nor answers; a third phase delivers them while real payments have RPCs outstanding (must still be answered in the delivery instant). Thorough repeats it through the real binary with an idle RPC socket.",
    note=W),
  "C14": dict(engine="WORLD", category="exploration", design="6 C14",
    technique="differential testing: payment B alone versus B beside payment A frozen at a generated RPC (or on its timer); traces must be equal",
@@ -65,7 +65,7 @@ CHECKS = {
    note=W),
  "C15": dict(engine="WORLD(unit)", category="exploration", design="6 C15",
    technique="property-based testing + exhaustive small scope: real PayPaymentProvider<Rpc>::wait_payment against the simulated node, result compared with the sendpay table at return",
-   text="0-4 parts in arbitrary states, completions/failures at every position among the list and waitsendpay answers; all event sequences up to length 4/5 for 1-2 pending parts enumerated. Some(p) => a part is complete with p; None => nothing pending or complete; Err => violation (no RPC error injected).",
+   text="0-4 parts in arbitrary states, completions/failures at every position among the list and waitsendpay answers, RPC-level failures (waitsendpay -1/200/400 while its part is in flight, failing list query), waitsendpay timeouts in virtual time; all event sequences up to length 4/6 for 1-2 pending parts enumerated. Some(p) => a part is complete with p; None => nothing pending or complete; Err => violation unless an RPC-level error was injected in that case.",
    note="Trusted: node model for listsendpays (snapshot at answer) and waitsendpay (held while pending)."),
  "C16": dict(engine="WORLD(unit)", category="exploration", design="6 C16",
    technique="property-based testing + cartesian enumeration: pay outcome x part configuration x later resolution order against the real PayPaymentProvider<Rpc>::pay",
@@ -85,7 +85,7 @@ CHECKS = {
    note="Real time is involved: shallowest check; an expired wait without verdict is exit 2."),
  "C20": dict(engine="WORLD+E2E", category="exploration", design="6 C20",
    technique="stateful property-based testing in virtual time: real BlockWatcher against generated poll replies, notifications and failures; max-of-told reference model",
-   text="After every step current_height() must equal the maximum height told in this lifetime (startup, answered polls, notifications), and the next poll must arrive within 60 s of the previous answer, also after failed polls. Thorough checks the block_added wiring through the binary via the maxdelay of a following pay.",
+   text="After every step current_height() must equal the maximum height told in this lifetime (startup, answered polls, notifications), and the next poll must arrive within 60 s of the previous answer, also after failed polls. getinfo replies may carry sync warnings. A parallel stress phase (multi-thread runtime, hundreds of concurrent notifications) checks the final height and that no reader sees a decrease. E2E (also quick): block_added wiring and the blocking startup query (slow getinfo) through the binary via the maxdelay of a following pay.",
    note=W),
 }
 
